@@ -124,40 +124,56 @@ func c16IncrExec(c *mon.Case) {
 	root := generic.NewSymbolRootNode()
 	types := map[string]int{}
 	var sorted []string
+	reads := 0
+	read := func(in string, registered int) bool {
+		if in == "" {
+			return true
+		}
+		reads++
+		wantText, wantType := string([]rune(in)[:1]), tokenizers.Symbol
+		for _, k := range sorted {
+			if strings.HasPrefix(in, k) {
+				wantText, wantType = k, types[k]
+				break
+			}
+		}
+		sc := rio.NewStringScanner(in)
+		var t *tokenizers.Token
+		if p := mon.Try(func() { t = root.NextToken(sc) }); p != nil {
+			c.FailPanic("SymbolRootNode.NextToken", p)
+			return false
+		}
+		var rest strings.Builder
+		for ch := sc.Read(); ch != -1; ch = sc.Read() {
+			rest.WriteRune(ch)
+		}
+		if t.Value() != wantText || t.Type() != wantType || rest.String() != in[len(wantText):] {
+			c.Failf("wrong symbol text, type or consumed length after a further registration", "registered so far=%q (types 100+index; inputs are read between registrations, the symbol about to be registered last and again first); input=%q: got %s%q rest=%q, want type %d %q rest=%q",
+				syms[:registered], in, tokTypeName(t.Type()), t.Value(), rest.String(), wantType, wantText, in[len(wantText):])
+			return false
+		}
+		return true
+	}
 	for i, s := range syms {
+		// the last thing read before a registration is the symbol about to be registered (a miss somewhere along
+		// its path), and it is the first thing read afterwards
+		if i > 0 && !read(s+"x", i) {
+			return
+		}
 		root.Add(s, 100+i)
 		types[s] = 100 + i
 		sorted = append(sorted, s)
 		sort.SliceStable(sorted, func(a, b int) bool { return len(sorted[a]) > len(sorted[b]) })
-		for _, in := range inputs {
-			if in == "" {
-				continue
-			}
-			wantText, wantType := string([]rune(in)[:1]), tokenizers.Symbol
-			for _, k := range sorted {
-				if strings.HasPrefix(in, k) {
-					wantText, wantType = k, types[k]
-					break
-				}
-			}
-			sc := rio.NewStringScanner(in)
-			var t *tokenizers.Token
-			if p := mon.Try(func() { t = root.NextToken(sc) }); p != nil {
-				c.FailPanic("SymbolRootNode.NextToken", p)
-				return
-			}
-			var rest strings.Builder
-			for ch := sc.Read(); ch != -1; ch = sc.Read() {
-				rest.WriteRune(ch)
-			}
-			if t.Value() != wantText || t.Type() != wantType || rest.String() != in[len(wantText):] {
-				c.Failf("wrong symbol text, type or consumed length after a further registration", "registered so far=%q (types 100+index), all inputs are read after every registration; input=%q: got %s%q rest=%q, want type %d %q rest=%q",
-					syms[:i+1], in, tokTypeName(t.Type()), t.Value(), rest.String(), wantType, wantText, in[len(wantText):])
+		if !read(s+"x", i+1) || !read(s, i+1) {
+			return
+		}
+		for k := range inputs {
+			if !read(inputs[(k+i*7)%len(inputs)], i+1) {
 				return
 			}
 		}
 	}
-	c.AddEvals(len(syms)*len(inputs)-1, 0)
+	c.AddEvals(reads-1, 0)
 	c.NonTrivial()
 }
 
